@@ -67,7 +67,7 @@ class BumbleApp:
     """The application on top of a real bumble Device: opens / accepts channels through the public API, installs
     sinks, writes, drains."""
 
-    def __init__(self, ep, device, wire, spec_params, channel_factory=None):
+    def __init__(self, ep, device, wire, spec_params, channel_factory=None, return_each=False):
         self.ep = ep
         self.device = device
         self.wire = wire
@@ -76,6 +76,7 @@ class BumbleApp:
         self.drains = {}  # local cid -> [tasks]
         self.connect_error = None
         self.channel_factory = channel_factory
+        self.return_each = return_each
 
     def _spec(self, psm):
         from bumble import l2cap
@@ -85,6 +86,10 @@ class BumbleApp:
     def _adopt(self, channel):
         self.channels[channel.source_cid] = channel
         channel.sink = functools.partial(self._on_sink, channel)
+        if self.return_each and hasattr(channel, "peer_credits_threshold") and hasattr(channel, "peer_max_credits"):
+            # receiver policy "one credit back per frame" (the policy is free: DESIGN Appendix D); only the refill
+            # threshold of the RECEIVING side is moved, the receiving code is the stack's own
+            channel.peer_credits_threshold = channel.peer_max_credits - 1
 
     def _on_sink(self, channel, data):
         ch = self.wire.by_cid[self.ep].get(channel.source_cid)
@@ -215,7 +220,7 @@ def run_scenario(sc, channel_patch=None):
         p1 = (sc["p1"]["mtu"], sc["p1"]["mps"], sc["p1"]["credits"])
         nch = sc.get("nch", 1)
         mode = sc["mode"]
-        app0 = BumbleApp(0, net[0], wire, p0)
+        app0 = BumbleApp(0, net[0], wire, p0, return_each=sc.get("rx_each", False))
         if channel_patch:
             adopt0 = app0._adopt
 
@@ -232,7 +237,7 @@ def run_scenario(sc, channel_patch=None):
             puppet.handle = conn[1].handle
             state["puppet"] = puppet
         else:
-            app1 = BumbleApp(1, net[1], wire, p1)
+            app1 = BumbleApp(1, net[1], wire, p1, return_each=sc.get("rx_each", False))
             state["apps"][1] = app1
 
         state["phase"] = "open"
@@ -298,6 +303,7 @@ def run_scenario(sc, channel_patch=None):
             ch = wire.chans[c["ch"]]
             if any(sc["writes"][ch.idx]):
                 raise HarnessError("close of a channel that carries data in this scenario")
+            wire.app_close(0, ch)
             await app0.channel_for(ch).disconnect()
 
         async def drain_close_job(c):
@@ -313,6 +319,7 @@ def run_scenario(sc, channel_patch=None):
                 wr(stream_bytes(sc["seed"], ch.idx, 0, size))
             channel = app0.channel_for(ch)
             await channel.drain()
+            wire.app_close(0, ch)
             await channel.disconnect()
 
         for c in sc.get("close", []):
